@@ -25,10 +25,10 @@ LEVEL_NOTE = ('Rows with tied chi^2 may come in any order; resolved-model remova
 RULE = ("cases: (mode, load variant, n_models, package permutation); executions: Fitter.fit on 7 sources built to produce ties/1e30/inf, one evaluation per row; "
         "non-trivial = distinct (case, source) whose result has >= 2 rows")
 ASSUMPTIONS = ["finite value alphabets", "ties may be ordered either way"]
-REQUIRED_CLASSES = ['single-known-distance', 'ninety-trial-distances', 'grid-of-hundreds-of-models', 'tied-chi2-duplicates', 'chi2>=1e30', 'tied-at-1e30', 'chi2==2e30', 'resolved-removal-moves-best-distance', 'n_models==1', 'n_models==8', 'permuted-package',
+REQUIRED_CLASSES = ['cube-tabulated-in-Jy', 'single-known-distance', 'ninety-trial-distances', 'grid-of-hundreds-of-models', 'tied-chi2-duplicates', 'chi2>=1e30', 'tied-at-1e30', 'chi2==2e30', 'resolved-removal-moves-best-distance', 'n_models==1', 'n_models==8', 'permuted-package',
                     'mode-2d', 'mode-3d', 'float32-path', 'dead-model', 'near-tied-chi2']
 TIMEOUT = {'quick': 300, 'thorough': 1200}
-VARIANTS = [('v1', False), ('v2', True), ('v2', False)]
+VARIANTS = [('v1', False), ('v2', True), ('v2', False), ('v2Jy', False), ('v2Jy', True)]          # v2Jy: the cube is tabulated in Jy (the convolved files stay in mJy)
 BANDS = ['B1', 'B2', 'B3', 'B5']
 
 SOURCES = [  # flags, limit flux factor, confidences
@@ -63,6 +63,8 @@ def setup(tier, seed):
                     if tier == 'thorough' and n == 6 and not (iv == 0 or (mode == '2d' and iv == 1)):
                         continue          # 720 permutations: per-file packages in both modes, cube packages in the distance-independent mode
                     if tier == 'quick' and n == 4 and iv != 0 and (sum(i * x for i, x in enumerate(p)) + seed) % 3:
+                        continue
+                    if iv >= 3 and (n not in (3, 5) or (tier == 'quick' and list(p) != sorted(p) and p != perms_for(n, tier)[1])):
                         continue
                     out.append({'mode': mode, 'variant': iv, 'n': n, 'perm': list(p)})
     # scale: a few hundred models (row and rank indices beyond 127 / 255), package order scrambled
@@ -113,6 +115,10 @@ def run_case(ctx, case, rec, d):
     seed = ctx['seed']
     mode, n = case['mode'], case['n']
     fmt, memmap = VARIANTS[case['variant']]
+    cube_unit = 'mJy'
+    if fmt.endswith('Jy'):
+        fmt, cube_unit = fmt[:-2], 'Jy'
+        rec.cls('cube-tabulated-in-Jy')
     perm = case['perm']
     phys_names = ['p%d_%s' % (i, 'kcsaqdeb'[i % 8]) for i in range(n)]          # (names ending in s, d, e or _ are names like any other)
     if n >= 2:
@@ -131,7 +137,7 @@ def run_case(ctx, case, rec, d):
         rec.cls('permuted-package')
     if mode == '2d':
         fphys = _grid(seed, n)
-        spec = {'fmt': fmt, 'names': names, 'bands': BANDS, 'flux': fphys[perm]}
+        spec = {'fmt': fmt, 'names': names, 'bands': BANDS, 'flux': fphys[perm], 'cube_unit': cube_unit}
         md = fc.build_package(d, 'pkg', spec)
         fitters = [(fc.make_fitter(md, BANDS, 'power', (avlo, avhi), memmap=memmap), False)]
         logm = np.log10(fphys[perm])
@@ -146,7 +152,7 @@ def run_case(ctx, case, rec, d):
         # make the last physical model strongly extended (surface brightness rising outwards: resolved at every trial distance)
         tphys[n - 1] = tphys[n - 1][:, :1] * np.array([1.0, 1e3, 1e6, 1e9])[None, :]
         step = 0.02 if case.get('fine') else 0.15
-        spec = {'fmt': fmt, 'names': names, 'bands': BANDS, 'apertures': ap, 'tables': tphys[perm], 'logd_step': step}
+        spec = {'fmt': fmt, 'names': names, 'bands': BANDS, 'apertures': ap, 'tables': tphys[perm], 'logd_step': step, 'cube_unit': cube_unit}
         md = fc.build_package(d, 'pkg', spec)
         dmin, dmax = (0.2, 12.0) if case.get('fine') else (0.4, 6.0)
         if case.get('single_distance'):
@@ -154,7 +160,7 @@ def run_case(ctx, case, rec, d):
             rec.cls('single-known-distance')
         if case.get('fine'):
             rec.cls('ninety-trial-distances')
-        dunit = ['kpc', 'pc', 'cm'][case['variant']]
+        dunit = ['kpc', 'pc', 'cm'][case['variant'] % 3]
         fitters = [(fc.make_fitter(md, BANDS, 'power', (avlo, avhi), distance_range_kpc=(dmin, dmax), memmap=memmap, dunit=dunit), False),
                    (fc.make_fitter(md, BANDS, 'power', (avlo, avhi), distance_range_kpc=(dmin, dmax), memmap=memmap, remove_resolved=True, dunit=dunit), True)]
         prob, grid = fc.judge_grid(fitters[0][0], dmin, dmax, step)
